@@ -350,6 +350,27 @@ let infer_line l =
   print_endline ((match infer f (nat fuel) with IInferred -> "I" | INotInferred -> "N" | INoFuel -> "F")
     ^ " " ^ b (plain f) ^ b (wf_fn f && wf_cfg f) ^ b (final_stable f (nat fuel)) ^ b (infer_checked f (nat fuel)) ^ b (semiplain f))
 
+(* nonce case (guard nonce sets, model M11): nregs nops {op a b n xs...}*   with op 0 add(r=a, xs) 1 remove(r=a, xs)
+   2 union(dst=a, r=b, others=xs) 3 inter 4 copy(dst=a, r=b) 5 contains(r=a, n=b) 6 subset(a, b) 7 eq(a, b) 8 empty(a)
+   -> the query answers, then every register sorted *)
+let nonce_line l =
+  let a = Array.of_list (ints_of_line l) in
+  let pos = ref 0 in
+  let next () = let v = a.(!pos) in incr pos; v in
+  let nat = nat_of_int in
+  let nregs = next () in
+  let nops = next () in
+  let ops = List.init nops (fun _ ->
+    let op = next () in let x = next () in let y = next () in let n = next () in
+    let xs = List.init n (fun _ -> nat (next ())) in
+    match op with
+    | 0 -> OAdd (nat x, xs) | 1 -> ORemove (nat x, xs) | 2 -> OUnion (nat x, nat y, xs) | 3 -> OInter (nat x, nat y, xs)
+    | 4 -> OCopy (nat x, nat y) | 5 -> OContains (nat x, nat y) | 6 -> OSubset (nat x, nat y) | 7 -> OEq (nat x, nat y)
+    | _ -> OEmpty (nat x)) in
+  let (regs, outs) = nrun (List.init nregs (fun _ -> [])) ops in
+  print_endline (String.concat "" (List.map (fun b -> if b then "1" else "0") outs) ^ " | " ^
+    String.concat " ; " (List.map (fun r -> String.concat "," (List.map string_of_int (List.sort compare (List.map int_of_nat r)))) regs))
+
 let () =
   let mode = if Array.length Sys.argv > 1 then Sys.argv.(1) else "engine" in
   try
@@ -365,6 +386,7 @@ let () =
          | "minigo" -> minigo_line l
          | "keys" -> keys_line l
          | "infer" -> infer_line l
+         | "nonce" -> nonce_line l
          | _ -> failwith "unknown mode")
     done
   with End_of_file -> ()
